@@ -30,6 +30,7 @@ class R:
         self.trace = []
         self.wfired = False
         self.live = 0
+        self.announced = True   # the listeners know the current clock value
 
     def init(self):
         self.phase = "INIT"
@@ -41,10 +42,11 @@ class R:
         self.trace = []
         self.wfired = False
         self.live = 1
+        self.announced = True
 
     def canon(self):
         return (self.phase, self.clock, tuple(self.trace), self.wfired,
-                self.live)
+                self.live, self.announced)
 
     def fix_clock(self, real_clock):
         if self.clock is None:
@@ -91,6 +93,7 @@ def ref_quiescent(r0, cmd):
         if r.pend and r.pend[0][0] <= END:
             t, tag = r.pend.pop(0)
             r.clock = t
+            r.announced = True
             if tag == "W":
                 r.wfired = True
             else:
@@ -184,7 +187,10 @@ def run_piece(r0, cmd, arm):
         t, tag = r.pend[0]
         if t > bound or (t == bound and not incl):
             break
-        if t != r.clock:
+        if t != r.clock or not r.announced:
+            # (also for an event at the bound where a bounded run paused:
+            # nobody has been told about that time yet)
+            r.announced = True
             visit("on:TIME_CHANGED")
         r.pend.pop(0)
         r.clock = t
@@ -222,6 +228,7 @@ def run_piece(r0, cmd, arm):
     # natural completion of the piece
     if bound > r.clock:
         r.clock = bound
+        r.announced = False
     will_end = bound >= END and incl
     before_stop = copy.deepcopy(r)
     visit("on:STOP", pre_stop=False, natural_end=will_end)
@@ -296,7 +303,8 @@ ARMS = [(loc, x) for loc in ("on:START_REPLICATION", "on:STARTING",
         for x in (("stop",), ("start",), ("step",), ("initialize",),
                   ("upto", MID), ("end_replication",), ("cleanup",))]
 PLAIN = [("initialize",), ("start",), ("step",), ("stop",), ("upto", MID),
-         ("uptoi", 2.0), ("upto", END), ("end_replication",), ("cleanup",)]
+         ("uptoi", 2.0), ("upto", 2.0), ("upto", END), ("end_replication",),
+         ("cleanup",)]
 
 
 def alphabet(with_arms=True):
@@ -648,6 +656,25 @@ def scen_S8(s):
     return finish_b(w, s, r)
 
 
+def scen_S9(s):
+    """a start command issued while a bounded run is in the middle of a
+    handler (state STARTED) that pauses shortly afterwards: refused, and the
+    bounded run pauses at its bound"""
+    w = LC.new_world(times=(1.0, 2.0, 3.0), end=5.0, warmup=0.0)
+    I = LC.classes()["issue_raw"]
+    r = [I(w, ("initialize",))]
+    s.wait_quiescent()
+    w.arm = ("h0", ("sleep", 0.2))
+    r.append(I(w, ("upto", 1.5)))
+    n = 0
+    while not w.busy and n < 10000:
+        coopsched.coop_sleep(0.001)
+        n += 1
+    r.append(I(w, ("start",)))
+    s.wait_quiescent()
+    return finish_b(w, s, r)
+
+
 def scen_S2(s):
     """rapid start/stop alternation on an endless model, then
     end_replication (the repository's start/stop demo)"""
@@ -672,6 +699,7 @@ SCEN = {"S1": (scen_S1, (1.0, 2.0), 3.0), "S3": (scen_S3, (1.0, 2.0, 3.0), 5.0),
         "S5init": (scen_S5i, (1.0, 2.0), 3.0),
         "S6": (scen_S6, (1.0, 2.0, 3.0), 5.0),
         "S8": (scen_S8, (1.0, 2.0), 3.0),
+        "S9": (scen_S9, (1.0, 2.0, 3.0), 5.0),
         "S2": (scen_S2, None, 1e9)}
 
 
@@ -722,7 +750,9 @@ def judge_b(name):
         reps = [[]]
         for x in o["stream"]:
             reps[-1].append(x)
-        for b in LC.monitor(o["stream"], warmup=0.0) if name != "S5init" \
+        for b in LC.monitor(o["stream"], warmup=0.0,
+                            listeners_stay=name != "S5cleanup") \
+                if name != "S5init" \
                 else []:
             bad.append(("I3-stream", b[0]))
         # I4 trace is a prefix of the reference trace; complete iff ENDED
@@ -753,6 +783,12 @@ def judge_b(name):
                     names.index("STOPPING") < names.index("EXEC"):
                 bad.append(("I5-stop-accepted-before-the-first-event-was-lost",
                             state))
+        if name == "S9" and (outs != ("ok", "ok", "DSOLError")
+                             or state != ("STOPPED", "STARTED")
+                             or o["clock"] != 1.5
+                             or o["trace"] != [(1.0, 0)]):
+            bad.append(("I1-start-while-running-not-refused", outs, state,
+                        o["clock"]))
         if name == "S8" and state != ("ENDED", "ENDED"):
             bad.append(("I5-end_replication-did-not-end", state))
         if name == "S2" and state != ("ENDED", "ENDED"):
@@ -888,9 +924,9 @@ def run(ctx):
              depth=depth)
     # ---------------- C04b
     plan = [("S1", 2), ("S3f", 2), ("S4", 2), ("S5cleanup", 2), ("S5init", 1),
-            ("S6", 1), ("S8", 1), ("S2", 1)] if quick else \
+            ("S6", 1), ("S8", 1), ("S9", 1), ("S2", 1)] if quick else \
         [("S1", 2), ("S3f", 2), ("S3", 2), ("S4", 2), ("S5cleanup", 2),
-         ("S5init", 2), ("S6", 2), ("S8", 2), ("S2", 2), ("S1", 3)]
+         ("S5init", 2), ("S6", 2), ("S8", 2), ("S9", 2), ("S2", 2), ("S1", 3)]
     nexec = 0
     nout = 0
     for name, bound in plan:
